@@ -97,8 +97,15 @@ def flow_rekey_ike(n, eng, fault_at, who='A'):
             raise Violation(f'after an IKE_SA rekey a controller holds {len(ctl.ike_sas)} IKE_SAs / {[len(e.child_sas) for e in ctl.ike_sas]} CHILD_SAs')
 
 
-def flow_del_ike(n, eng, fault_at, who='A'):
+def flow_del_ike(n, eng, fault_at, who='A', children=1):
     a, b = n.establish()
+    for i in range(children - 1):
+        # further CHILD_SAs of the same IKE_SA (created by alternating endpoints)
+        w = 'A' if i % 2 == 0 else 'B'
+        r = n.acquire(w, sport=9100 + i, dport=23) if w == 'A' else n.acquire(w, sport=23, dport=9100 + i)
+        n.pump('B' if w == 'A' else 'A', r)
+    if len(a.child_sas) != children or len(b.child_sas) != children:
+        raise Violation(f'set-up: {len(a.child_sas)}/{len(b.child_sas)} CHILD_SAs instead of {children}')
     me, E = (a, n.A) if who == 'A' else (b, n.B)
     arm_fault(eng, n, fault_at, 3)
     world.ENV.now = me.delete_ike_sa_at + 3600
@@ -208,6 +215,7 @@ FLOWS = {
 }
 FLOWS.update({'del_child_A_same_spi': (flow_del_child, {'who': 'A'}, {}), 'del_child_B_same_spi': (flow_del_child, {'who': 'B'}, {}),
               'del_ike_A_same_spi': (flow_del_ike, {'who': 'A'}, {}), 'rekey_ike_B_same_spi': (flow_rekey_ike, {'who': 'B'}, {})})
+FLOWS.update({f'del_ike_{w}_{k}_children': (flow_del_ike, {'who': w, 'children': k}, {}) for w in 'AB' for k in (2, 3)})
 FLOWS.update({f'cross_{ta}_{tb}': (flow_cross, {'ta': ta, 'tb': tb}, {}) for ta in CROSS for tb in CROSS})
 
 
